@@ -94,9 +94,9 @@ def ingest(pid, source, name=None):
                  if os.path.exists(os.path.join(dest, f))]
         for f in extra:  # the demos name their worktree: point them here
             text = open(os.path.join(dest, f)).read()
-            for old in ("/tmp/seed2-" + pid, "/tmp/seed3-" + pid,
-                        "/tmp/seed-" + pid, "/tmp/seed-" + name):
-                text = text.replace(old, wt)
+            import re
+            text = re.sub(r"/tmp/seed\d*-" + pid + r"(?![0-9])", wt, text)
+            text = text.replace("/tmp/seed-" + name, wt)
             open(os.path.join(wt, f), "w").write(text)
         demo0 = sh("{} demo.py".format(PY), cwd=wt,
                    env=dict(os.environ, MPLBACKEND="Agg"))
